@@ -324,6 +324,18 @@ fn polyn_translate(m: &mut Mon, r: &mut Rng) {
                 m.violation("PolyN Translate number differs from the single IEEE operation", || {
                     json!({"coeffs": hxs(&c), "scalar": hx(s), "observed": hxs(&p.0), "expected": hxs(&exp)})
                 });
+            } else if exp.len() == 1 && exp[0].is_finite() {
+                // "an empty dynamic-degree polynomial becomes the constant c": its value at any x is that constant
+                let x = r.mixed(3.0);
+                m.count("polyn_constant_value_checked");
+                match guard(|| p.evaluate(x)) {
+                    Err(pn) => m.panic("PolyN evaluate panic", &pn, || json!({"coeffs": hxs(&p.0)})),
+                    Ok(v) => {
+                        if v != exp[0] {
+                            m.violation("PolyN Translate value differs from the pointwise operation", || json!({"coeffs": hxs(&c), "scalar": hx(s), "x": hx(x), "observed": hx(v), "expected": hx(exp[0])}));
+                        }
+                    }
+                }
             }
         }
     }
@@ -342,6 +354,7 @@ pub fn canaries(m: &mut Mon, r: &mut Rng) {
 pub const FLOORS: &[&str] = &[
     "value_level_checks",
     "polyn_empty_translate",
+    "polyn_constant_value_checked",
     "quartic_pair_equal_coeffs_different_u",
     "impl:Mul<f64>:Poly0", "impl:MulAssign<f64>:Poly5", "impl:Neg:Poly8", "impl:Add:Poly6", "impl:Translate:Poly7",
     "impl:Mul<f64>:Log<Poly3>", "impl:MulAssign<f64>:Log<Poly8>", "impl:Translate:Log<Poly0>",
